@@ -148,7 +148,7 @@ func (p *Program) resolveRenames() {
 			if all {
 				byNames = append(byNames, aname)
 			}
-			if sameTypes(fs, canonLayout[k]) {
+			if sameTypes(fs, canonLayout[k]) || sameTypeSet(fs, canonLayout[k]) {
 				byTypes = append(byTypes, aname)
 			}
 		}
@@ -193,8 +193,8 @@ func (p *Program) resolveRenames() {
 			}
 			continue
 		}
-		// layout changed (fields added/removed): a missing canonical field is matched to the only new
-		// field of the same type
+		// layout changed (fields added, removed or reordered): a missing canonical field is matched to
+		// the only new field of the same type
 		for _, c := range cf {
 			if have[c.Name] {
 				continue
@@ -221,4 +221,23 @@ func canonFieldName(n *types.Named, field string) string {
 		return c
 	}
 	return field
+}
+
+// sameTypeSet: the two layouts have the same fields up to order, and no type occurs twice (so the
+// correspondence is unambiguous).
+func sameTypeSet(a, b []canonField) bool {
+	if len(a) != len(b) || len(a) == 0 {
+		return false
+	}
+	ca, cb := map[string]int{}, map[string]int{}
+	for i := range a {
+		ca[a[i].Type]++
+		cb[b[i].Type]++
+	}
+	for t, n := range ca {
+		if n != 1 || cb[t] != 1 {
+			return false
+		}
+	}
+	return true
 }
